@@ -60,7 +60,9 @@ var lockVariants = []lockVariant{
 	{"evalna-write", true, false, func(string) (string, string, []string) {
 		return "evalna", "local v = tile38.call('GET','k','id1') tile38.call('SET','p','na','STRING',ARGV[1]) return tostring(os.clock())", nil
 	}},
-	{"set", true, true, func(tok string) (string, string, []string) { return "", "", []string{"SET", "p", "plain", "STRING", tok} }},
+	{"set", true, true, func(tok string) (string, string, []string) {
+		return "", "", []string{"SET", "p", "plain", "STRING", tok}
+	}},
 }
 
 type lockObs struct {
